@@ -189,6 +189,8 @@ def lex(body):
             if _re_cell_like.match(w) or _re_r1c1_like.match(w):
                 raise Unknown('reference-look-alike')
             up = w.upper()
+            if up == 'XFD':
+                raise Unknown('grid-edge')      # "A1:XFD": last column, names collapse (C04's finding)
             if j < n and body[j] == '(':
                 if up in ('TRUE', 'FALSE'):
                     raise Unknown('logical-as-function')
@@ -247,6 +249,8 @@ def lex(body):
                 # "TRUE:B2" is read as a name by some parsers, "1.5:2" / '"a":2' are nothing I am certain about
                 if toks[j][0] != 'num' or not toks[j][1].isdigit():
                     raise Unknown('literal-in-range')
+                if int(toks[j][1]) >= MAXROW:
+                    raise Unknown('grid-edge')
                 toks[j] = ('ref', toks[j][1])
     return toks
 
